@@ -71,7 +71,7 @@ var ingressAnnotations = []annChoice{
 	{"redirect-to", []string{"https://elsewhere.local"}},
 	{"waf", []string{"modsecurity"}},
 	{"oauth", []string{"oauth2_proxy"}},
-	{"auth-url", []string{"http://10.9.9.9:8000/auth", "http://10.9.9.8:8000/auth", "http://10.9.9.7:8001/check", "svc://a/s2:80", "svc://missing:80", "http://authhost.local/x", "bad::url", "https://10.9.9.6/auth", "ftp://10.9.9.9/x", "http://nohost.local/x", "svc://s2", "svc://a/s2:81"}},
+	{"auth-url", []string{"http://10.9.9.9:8000/auth", "http://10.9.9.8:8000/auth", "http://10.9.9.7:8001/check", "svc://a/s2:80", "svc://missing:80", "http://authhost.local/x", "bad::url", "https://10.9.9.6/auth", "ftp://10.9.9.9/x", "http://nohost.local/x", "svc://s2", "svc://a/s2:81", "svc://s1:80", "svc://s1:80/check"}},
 	{"auth-external-placement", []string{"frontend", "backend"}},
 	{"session-cookie-preserve", []string{"true"}},
 	{"session-cookie-dynamic", []string{"false", "true"}},
@@ -314,29 +314,26 @@ func (g *gen) sanitize(o client.Object) {
 			ing.Spec.Rules[i].HTTP.Paths = ps
 		}
 	}
-	if g.opt.Avoid["no_alternating_nesting"] {
-		// one non-exact path type per run: prefix and begin rules never nest in each other
+	if g.opt.Avoid["no_upper_case_prefix"] {
+		// KF-begin-case-overlap: a prefix rule with upper-case letters is not seen as nested in a
+		// begin rule; such paths are declared with another type (or lower-cased)
+		ptAnn := strings.ToLower(ing.Annotations[annPrefix+"path-type"])
 		for i := range ing.Spec.Rules {
 			if ing.Spec.Rules[i].HTTP == nil {
 				continue
 			}
 			for j := range ing.Spec.Rules[i].HTTP.Paths {
 				p := &ing.Spec.Rules[i].HTTP.Paths[j]
-				if p.PathType != nil && *p.PathType == networking.PathTypeExact {
+				if p.Path == strings.ToLower(p.Path) {
 					continue
 				}
-				if g.tcpShared { // reuse the per-run coin
-					pt := networking.PathTypePrefix
-					p.PathType = &pt
-				} else {
+				if p.PathType != nil && *p.PathType == networking.PathTypePrefix {
 					pt := networking.PathTypeImplementationSpecific
 					p.PathType = &pt
 				}
-			}
-		}
-		if !g.tcpShared {
-			if v, ok := ing.Annotations[annPrefix+"path-type"]; ok && v == "prefix" {
-				ing.Annotations[annPrefix+"path-type"] = "begin"
+				if (p.PathType == nil || *p.PathType == networking.PathTypeImplementationSpecific) && ptAnn == "prefix" {
+					p.Path = strings.ToLower(p.Path)
+				}
 			}
 		}
 	}
@@ -808,6 +805,9 @@ func GenerateRun(seed uint64, opt GenOptions) (*World, []Op) {
 		}
 		g.opt.Paths = ps
 	}
+	if g.opt.Avoid["no_partial_segment_begin"] {
+		g.opt.Paths = dropPartialSegmentPaths(g.opt.Paths)
+	}
 	if g.opt.Avoid["no_app_root"] {
 		opt.ExcludeIngressKeys = append(append([]string{}, opt.ExcludeIngressKeys...), "app-root")
 	}
@@ -1239,5 +1239,39 @@ func (g *gen) genOp(name string) {
 		}
 	case "advance":
 		g.ops = append(g.ops, Op{Type: "advance", Ms: []int{1, 50, 200, 1000, 2500, 6000, 31000}[g.pick(7)]})
+	}
+}
+
+// dropPartialSegmentPaths removes paths from an alphabet until none ends inside
+// a segment of another one (/ap under /app, /app under /app1): the path that
+// takes part in most such pairs goes first, the longer one on a tie.
+func dropPartialSegmentPaths(paths []string) []string {
+	ps := append([]string{}, paths...)
+	for {
+		count := map[string]int{}
+		for _, a := range ps {
+			for _, b := range ps {
+				if partialSegment(a, b) {
+					count[a]++
+					count[b]++
+				}
+			}
+		}
+		worst := ""
+		for _, p := range ps {
+			if count[p] > 0 && (worst == "" || count[p] > count[worst] || (count[p] == count[worst] && len(p) > len(worst))) {
+				worst = p
+			}
+		}
+		if worst == "" {
+			return ps
+		}
+		var keep []string
+		for _, p := range ps {
+			if p != worst {
+				keep = append(keep, p)
+			}
+		}
+		ps = keep
 	}
 }
